@@ -652,6 +652,13 @@ def run(tier, seed):
         if apal is not None and apal[0] != "unavailable" and apal[0].poll() is None:
             apal[0].kill()
     chk.exhaustive = False
+    classes = {}
+    for sig, _, _ in chk.violations:
+        k = f"{sig.get('kind')}/{sig.get('class')}/{sig.get('msg', '')}"
+        classes[k] = classes.get(k, 0) + 1
+    chk.extra["disagreements_by_class"] = classes
+    if classes:
+        vlib.log(f"[C16] disagreements by class: {classes}")
     return chk.finish()
 
 
